@@ -956,6 +956,13 @@ func guardedInCallers(w *World, fn *ssa.Function, s reflectSite, depth int) stri
 		return ""
 	}
 	cvs, ok := callerValues(p, field)
+	byConstruction := false
+	if !ok && field >= 0 {
+		// a method reached through an interface (sort.Interface, a callback): the field holds what
+		// every construction of the struct put there
+		cvs, ok = constructionValues(p.Type(), field)
+		byConstruction = ok
+	}
 	if !ok {
 		return ""
 	}
@@ -963,21 +970,25 @@ func guardedInCallers(w *World, fn *ssa.Function, s reflectSite, depth int) stri
 	for _, cv := range cvs {
 		arg := cv.val
 		caller := cv.caller
+		var site ssa.Instruction = cv.site
+		if cv.site == nil {
+			site = cv.at
+		}
 		n++
 		switch {
 		case viaValueOf:
-			ps := reflectSite{in: cv.site, recv: arg, method: s.method, legal: allValidKinds}
-			if reflectGuardedFlow(caller, ps, nil, arg) == "" && !dominatedByNonNilAssert(arg, cv.site) {
+			ps := reflectSite{in: site, recv: arg, method: s.method, legal: allValidKinds}
+			if reflectGuardedFlow(caller, ps, nil, arg) == "" && !dominatedByNonNilAssert(arg, site) {
 				return ""
 			}
 		case viaType:
 			// the type of the parameter Value: a kind test of the argument Value in the caller
-			ps := reflectSite{in: cv.site, recv: arg, method: s.method, legal: s.legal, onType: false}
+			ps := reflectSite{in: site, recv: arg, method: s.method, legal: s.legal, onType: false}
 			if reflectGuarded(caller, ps) == "" && guardedInParent(caller, ps) == "" && guardedInCallers(w, caller, ps, depth+1) == "" {
 				return ""
 			}
 		default:
-			ps := reflectSite{in: cv.site, recv: arg, method: s.method, legal: s.legal, onType: s.onType}
+			ps := reflectSite{in: site, recv: arg, method: s.method, legal: s.legal, onType: s.onType}
 			if reflectGuarded(caller, ps) == "" && guardedInParent(caller, ps) == "" && guardedInCallers(w, caller, ps, depth+1) == "" {
 				return ""
 			}
@@ -985,6 +996,9 @@ func guardedInCallers(w *World, fn *ssa.Function, s reflectSite, depth int) stri
 	}
 	if n == 0 {
 		return ""
+	}
+	if byConstruction {
+		return fmt.Sprintf("field of a struct built in %d place(s): the precondition is established before each construction and the field is never assigned afterwards", n)
 	}
 	return fmt.Sprintf("parameter of a helper: the precondition is established before the call at each of its %d call site(s)", n)
 }
